@@ -564,7 +564,7 @@ static __always_inline int build_dhcp_options(__u8 *opt, void *data_end,
 		return -1;
 	opt[offset++] = DHCP_OPT_ROUTER;
 	opt[offset++] = 4;
-	*(__u32 *)(opt + offset) = pool->gateway;
+	*(__u32 *)(opt + offset) = bpf_htonl(pool->gateway);
 	offset += 4;
 
 	/* Option 6: DNS Servers */
@@ -574,10 +574,10 @@ static __always_inline int build_dhcp_options(__u8 *opt, void *data_end,
 			return -1;
 		opt[offset++] = DHCP_OPT_DNS;
 		opt[offset++] = dns_len;
-		*(__u32 *)(opt + offset) = pool->dns_primary;
+		*(__u32 *)(opt + offset) = bpf_htonl(pool->dns_primary);
 		offset += 4;
 		if (pool->dns_secondary != 0) {
-			*(__u32 *)(opt + offset) = pool->dns_secondary;
+			*(__u32 *)(opt + offset) = bpf_htonl(pool->dns_secondary);
 			offset += 4;
 		}
 	}
@@ -734,8 +734,11 @@ int dhcp_fastpath_prog(struct xdp_md *ctx) {
 	/* Check if packet was relayed (giaddr != 0) */
 	__u32 giaddr = pkt.dhcp->giaddr;
 
-	/* Server IP - use config if set, otherwise pool gateway */
-	__u32 server_ip = (config->server_ip != 0) ? config->server_ip : pool->gateway;
+	/* Server IP - use config if set, otherwise pool gateway.
+	 * The control plane (pkg/ebpf IPToUint32) stores every IPv4 value in the
+	 * maps as a host-order integer (10.0.0.1 == 0x0A000001); it has to be
+	 * converted before it is written into the packet. */
+	__u32 server_ip = bpf_htonl((config->server_ip != 0) ? config->server_ip : pool->gateway);
 
 	if (giaddr != 0) {
 		/* Relayed packet: unicast reply to relay agent */
@@ -772,7 +775,7 @@ int dhcp_fastpath_prog(struct xdp_md *ctx) {
 	/* Build DHCP reply */
 	pkt.dhcp->op = BOOTREPLY;
 	pkt.dhcp->hops = 0;
-	pkt.dhcp->yiaddr = assignment->allocated_ip;  /* Your IP address */
+	pkt.dhcp->yiaddr = bpf_htonl(assignment->allocated_ip);  /* Your IP address */
 	pkt.dhcp->siaddr = server_ip;                 /* Server IP */
 
 	/* Clear sname and file to avoid leaking request data */
